@@ -1,5 +1,6 @@
 //! vh — verification harness: runs the real crustabri code on case files, one canonical line per
 //! observable event. Usage: `vh <casefile>` (or stdin). Case lines: `<family> <id> k=v k=v ...`.
+mod enc;
 mod fw;
 mod rec;
 mod solve;
@@ -33,6 +34,7 @@ fn main() {
         match family {
             "solve" => solve::run(id, &p, &mut out),
             "store" => store::run(id, &p, &mut out),
+            "enc" => enc::run(id, &p, &mut out),
             _ => {
                 out.push(format!("panic unknown family {}", family));
                 out.push("end".to_string());
